@@ -5,7 +5,7 @@ cd /verif || exit 2
 WALL=${1:-60}
 for d in seeded/*/; do
   id=$(basename $d); prop=${id%-*}
-  out=$(./mutcheck.sh $d/patch.diff $prop $WALL 2>&1)
+  out=$(./mutcheck.sh /verif/${d}patch.diff $prop $WALL 2>&1)
   rule=$(echo "$out" | grep "^rule:" | head -1 | sed 's/^rule: //')
   rc=$(echo "$out" | grep "^exit=" | sed 's/exit=//')
   printf '{"property":"%s","check":"./check %s quick (VERIF_WALL_S=%s)","exit":%s,"rule":"%s"}\n' "$prop" "$prop" "$WALL" "${rc:-2}" "$rule" > $d/detect.json
